@@ -36,6 +36,10 @@ func c19Op(kind int, tok *biscuit.Biscuit, pub ed25519.PublicKey, shared *c19Sha
 		a.AddCheck(shared.check)
 		a.AddPolicy(shared.policy)
 		a.AddPolicy(biscuit.DefaultAllowPolicy)
+		// a regular expression this process has (most likely) not evaluated before
+		if c, err := shared.p.Check(fmt.Sprintf(`check if right($f, "read"), $f.matches("^file[0-9]+$|^never%d$")`, r.Intn(100000)), nil); err == nil {
+			a.AddCheck(c)
+		}
 		class, _, failed := classifyVerdict(a.Authorize())
 		return "authorize:" + class + strings.Join(failed, ",")
 	case 2: // query
@@ -119,6 +123,8 @@ func c19Worker(args []string) {
 	bb := t0.CreateBlock()
 	c0, _ := p.Check(`check if right("file1", "read")`, nil)
 	bb.AddCheck(c0)
+	c1, _ := p.Check(`check if right($f, "read"), $f.matches("^fi.e[12]$")`, nil)
+	bb.AddCheck(c1)
 	t1, err := t0.Append(detReader{rng.Fork()}, bb.Build())
 	if err != nil {
 		fatal("%v", err)
@@ -139,8 +145,15 @@ func c19Worker(args []string) {
 		}
 	}
 	bs, _ := t1.Serialize()
-	// freshly unmarshalled: the decoder leaves spare capacity behind the block bytes
+	// freshly unmarshalled: the decoder leaves spare capacity behind the block bytes.
+	// Two objects from the same bytes: one is shared by the goroutines, the other gives the
+	// reference outcomes afterwards (so that nothing is evaluated, and no lazily built state is
+	// warmed, before the goroutines start).
 	tok, err := biscuit.Unmarshal(bs)
+	if err != nil {
+		fatal("%v", err)
+	}
+	tokRef, err := biscuit.Unmarshal(bs)
 	if err != nil {
 		fatal("%v", err)
 	}
@@ -159,19 +172,16 @@ func c19Worker(args []string) {
 			plans[g] = append(plans[g], rng.Intn(9))
 		}
 	}
-	run := func(g int) []string {
+	run := func(g int, t *biscuit.Biscuit) []string {
 		r := NewRNG(seeds[g])
 		var out []string
 		for _, k := range plans[g] {
-			out = append(out, c19Op(k, tok, pub, shared, r))
+			out = append(out, c19Op(k, t, pub, shared, r))
 		}
 		return out
 	}
-	// sequential reference first (each goroutine alone), then all together
-	solo := make([][]string, ng)
-	for g := 0; g < ng; g++ {
-		solo[g] = run(g)
-	}
+	// all together FIRST, on a process that has evaluated nothing yet; then the reference
+	// (each goroutine's plan alone, on a second object decoded from the same bytes)
 	conc := make([][]string, ng)
 	var wg sync.WaitGroup
 	for g := 0; g < ng; g++ {
@@ -183,10 +193,14 @@ func c19Worker(args []string) {
 					conc[g] = append(conc[g], fmt.Sprint("PANIC:", p))
 				}
 			}()
-			conc[g] = run(g)
+			conc[g] = run(g, tok)
 		}(g)
 	}
 	wg.Wait()
+	solo := make([][]string, ng)
+	for g := 0; g < ng; g++ {
+		solo[g] = run(g, tokRef)
+	}
 	for g := 0; g < ng; g++ {
 		for k := range solo[g] {
 			got := "<missing>"
@@ -202,7 +216,7 @@ func c19Worker(args []string) {
 }
 
 func runC19(res *Result, rng *RNG, tier string, outDir string) {
-	res.Rule = "stress under the race detector (harness rebuilt with -race from the working tree): G goroutines x R rounds of randomly chosen operations of the property (verify, authorize on an own authorizer with shared parsed values, query, String/Code, GetBlockID with fresh strings, create/fill/build block + append, seal, serialize + revocation ids, parsing with one shared parser instance) on ONE shared token freshly unmarshalled from bytes (so spare capacity exists behind the stored block bytes). Oracle: any report of the race detector, any goroutine outcome differing from the outcome of the same operation sequence run alone, any panic. Non-trivial = every round (each is an operation racing with G-1 others); distinct by (run seed, goroutine, round)."
+	res.Rule = "stress under the race detector (harness rebuilt with -race from the working tree): G goroutines x R rounds of randomly chosen operations of the property (verify, authorize on an own authorizer with shared parsed values, query, String/Code, GetBlockID with fresh strings, create/fill/build block + append, seal, serialize + revocation ids, parsing with one shared parser instance) on ONE shared token freshly unmarshalled from bytes (so spare capacity exists behind the stored block bytes); the token and the authorizers carry regular expressions, some never evaluated before in the process; the concurrent phase runs FIRST (nothing is warmed up), the reference (each plan alone on a second object decoded from the same bytes) afterwards. Oracle: any report of the race detector, any goroutine outcome differing from the outcome of the same operation sequence run alone, any panic or runtime fatal error. Non-trivial = every round (each is an operation racing with G-1 others); distinct by (run seed, goroutine, round)."
 	runs, ng, rounds := 4, 8, 25
 	if tier == "thorough" {
 		runs, ng, rounds = 40, 16, 60
